@@ -386,7 +386,7 @@ def run_case(case, ctx):
             continue
         ctx.check(name + '.handedness', True)
         for inplace in case.get('inplace', [None, False, True]):
-            for pre in case.get('pre_read', [False] if inplace is None else [False, True]):
+            for pre in case.get('pre_read', [False] if inplace is None else [False, True, 'segment']):
                 rc = dict(case, chains=[chain], inplace=[inplace], pre_read=[pre])
                 f = dict(fo, inplace=inplace, pre_read=pre)
                 _one(ctx, name, tg, chain, inplace, pre, T, rc, f, defs0, plists, pts0, grid0, up0, descs, seed)
@@ -395,7 +395,21 @@ def run_case(case, ctx):
 def _one(ctx, name, tg, chain, inplace, pre, T, rc, f, defs0, plists, pts0, grid0, up0, descs, seed):
     cont = bool(tg['container'])
     obj, elems = _build_target(tg, seed)
-    if pre:
+    if pre == 'segment':
+        # the documented segment evaluation evaluate(start=, stop=) leaves a sub-range in the sampled points of each element
+        for e in elems:
+            pd_ = e.pdimension
+            kvs_ = [e.knotvector] if pd_ == 1 else list(e.knotvector)
+            dg_ = [e.degree] if pd_ == 1 else list(e.degree)
+            rng = [(kv[p] + (kv[-(p + 1)] - kv[p]) * 0.25, kv[p] + (kv[-(p + 1)] - kv[p]) * 0.75) for kv, p in zip(kvs_, dg_)]
+            if pd_ == 1:
+                e.evaluate(start=rng[0][0], stop=rng[0][1])
+            else:
+                kw = {}
+                for a, nm in enumerate('uvw'[:pd_]):
+                    kw['start_' + nm], kw['stop_' + nm] = rng[a]
+                e.evaluate(**kw)
+    elif pre:
         _read_evalpts(obj, elems, cont)
         if cont:
             # an unfinished earlier iteration over the container must not influence the next one
